@@ -33,15 +33,15 @@ fn span(base: &str, s: &str) -> Value {
         json!([-1, -1])
     }
 }
-fn mk_now(secs: i64) -> chrono::DateTime<chrono::Local> {
-    chrono::DateTime::<chrono::Utc>::from_timestamp(secs, 0).unwrap().with_timezone(&chrono::Local)
+fn mk_now(secs: i64, nanos: u32) -> chrono::DateTime<chrono::Local> {
+    chrono::DateTime::<chrono::Utc>::from_timestamp(secs, nanos).unwrap().with_timezone(&chrono::Local)
 }
 fn config(c: &Value) -> ChiritoriConfiguration {
     ChiritoriConfiguration {
         time_limited_configuration: TimeLimitedConfiguration {
             tag_name: string_of(&c["tl_tag"]),
             time_offset: string_of(&c["tl_offset"]),
-            current: mk_now(c["now"].as_i64().unwrap()),
+            current: mk_now(c["now"].as_i64().unwrap(), c["now_ns"].as_u64().unwrap_or(0) as u32),
         },
         removal_marker_configuration: RemovalMarkerConfiguration {
             tag_name: string_of(&c["rm_tag"]),
@@ -148,7 +148,7 @@ fn handle(req: &Value) -> Value {
         }
         "is_removal" => {
             // the real TimeLimitedEvaluator through the real chrono
-            let ev = TimeLimitedEvaluator { current_time: mk_now(req["now"].as_i64().unwrap()), time_offset: string_of(&req["offset"]) };
+            let ev = TimeLimitedEvaluator { current_time: mk_now(req["now"].as_i64().unwrap(), req["now_ns"].as_u64().unwrap_or(0) as u32), time_offset: string_of(&req["offset"]) };
             let to = if req["to"].is_null() { None } else { Some(string_of(&req["to"])) };
             let attrs = match (&to, req["has_to"].as_bool().unwrap_or(true)) {
                 (_, false) => vec![],
